@@ -12,7 +12,7 @@ from ..runner import Corr, Failure
 from .c10 import cxvars
 from .c03 import KINDS, _mk
 
-LEAN_MODULES = ['SvgVerif.Props.C15']
+LEAN_MODULES = ['SvgVerif.Props.C15', 'SvgVerif.Props.C15Singular']
 
 
 def gen_defs(spt, salt=0):
@@ -61,6 +61,81 @@ ASSUMPTIONS = [
 
 def _unit(z):
     return z / abs(z)
+
+
+def correspond(ctx):
+    """the removable-singularity branch of bezier_unit_tangent, the real function on exact rational control points
+    (exactnum.Q/QC), with csqrt replaced from outside so that its ARGUMENT is observed, against Model.Tangent.tangentLimit"""
+    from ..exactnum import Q, QC, qstr
+    from ..runner import Corr
+    spt, P = ctx.spt, ctx.spt.path
+    r = ctx.rng('corr/tanlimit')
+    c = Corr('bezier_unit_tangent/singular branch')
+    lines, impl = [], []
+    g = lambda: (Fr(r.randint(-5, 5), r.choice([1, 1, 2])), Fr(r.randint(-5, 5), r.choice([1, 1, 2])))
+    cap = {}
+    saved = P.csqrt
+
+    def my_csqrt(z):
+        cap['z'] = z
+        return ('csqrt', z)
+    try:
+        P.csqrt = my_csqrt
+        for it in range(ctx.n(200, 3000)):
+            cls = r.choice(['cubic p0=p1', 'cubic p2=p3', 'cubic p0=p1=p2', 'cubic p1=p2=p3', 'cubic interior', 'quad p0=p1', 'quad p1=p2'])
+            if cls.startswith('quad'):
+                a, b = g(), g()
+                if a == b:
+                    continue
+                pts, t = ([a, a, b], Fr(0)) if cls == 'quad p0=p1' else ([a, b, b], Fr(1))
+            elif cls == 'cubic interior':
+                # derivative d(t) = (t - t0)(alpha t + beta): integrate and convert to control points
+                t0 = Fr(r.randint(1, 7), 8)
+                al, be = g(), g()
+                if al == (0, 0) and be == (0, 0):
+                    continue
+                cm = lambda u, v: (u[0] * v[0] - u[1] * v[1], u[0] * v[1] + u[1] * v[0])
+                c0 = al
+                c1 = (be[0] - t0 * al[0], be[1] - t0 * al[1])
+                c2 = (-t0 * be[0], -t0 * be[1])
+                a0 = g()
+                a1, a2, a3 = c2, (c1[0] / 2, c1[1] / 2), (c0[0] / 3, c0[1] / 3)
+                ad = lambda *vs: (sum(v[0] for v in vs), sum(v[1] for v in vs))
+                sc = lambda k, v: (k * v[0], k * v[1])
+                pts = [a0, ad(sc(Fr(1, 3), a1), a0), ad(sc(Fr(1, 3), ad(a2, sc(2, a1))), a0), ad(a3, a2, a1, a0)]
+                t = t0
+            else:
+                a, b, d_ = g(), g(), g()
+                if cls == 'cubic p0=p1':
+                    pts, t = [a, a, b, d_], Fr(0)
+                elif cls == 'cubic p2=p3':
+                    pts, t = [a, b, d_, d_], Fr(1)
+                elif cls == 'cubic p0=p1=p2':
+                    pts, t = [a, a, a, b], Fr(0)
+                else:
+                    pts, t = [a, b, b, b], Fr(1)
+                if len(set(pts)) == 1:
+                    continue
+            seg = (P.QuadraticBezier if len(pts) == 3 else P.CubicBezier)(*[QC(*q) for q in pts])
+            cap.clear()
+            try:
+                res = P.bezier_unit_tangent(seg, Q(t))
+            except ValueError:
+                res = None
+            if res is None:
+                out = 'nolimit'
+            elif 'z' not in cap:
+                continue            # the derivative did not vanish: the regular branch was taken
+            else:
+                z = QC.lift(cap['z'])
+                out = 'value %s %s' % (qstr(z.real), qstr(z.imag))
+            lines.append('tanlimit %s | %s' % (' '.join(qstr(Q(v)) for q in pts for v in q), qstr(Q(t))))
+            impl.append(out)
+            c.count(cls)
+    finally:
+        P.csqrt = saved
+    c.compare(lines, [m.strip() for m in common.driver(lines)], impl)
+    return [c]
 
 
 def sample(ctx, budget=1.0, hint=None, broken=None):
